@@ -299,6 +299,9 @@ def run_units(mod, units, seed, tier, budget_s, only=None) -> Ctx:
                 ctx.counters['harness_errors'] += 1
                 if ctx.counters['harness_errors'] <= 3:
                     sys.stderr.write(f'[gv] harness error in unit {unit}:\n{tb}\n')
+        mon_ = getattr(mod, '_mon', None)
+        if mon_ is not None and hasattr(mon_, 'end_of_unit'):
+            mon_.end_of_unit(ctx)
         ctx.units_done += 1
     if hasattr(mod, 'teardown'):
         mod.teardown(ctx)
